@@ -11,7 +11,7 @@
 (*    per iteration, final half-up step) satisfies the relational DivOK    *)
 (*    used in trace validation, for precisions 1..3.                       *)
 (***************************************************************************)
-EXTENDS Ops, Json
+EXTENDS Mech, Json
 CONSTANTS K, GAPMAX
 
 VARIABLES a, b, ph
@@ -38,21 +38,6 @@ RemIdentity == ph = 2 =>
 FastAgrees == ph = 2 => ValEq(RemFast(a, b), R)
 
 \* C08: the digit-loop mechanism of impl_division, on magnitudes (signs are re-attached around it)
-RECURSIVE DivLoop(_, _, _, _, _, _)
-DivLoop(quot, rem10, den, scale, prec, P) ==      \* rem10 = remainder * 10
-  IF rem10 = <<>> \/ prec >= P THEN <<quot, rem10, scale>>
-  ELSE LET dm == NDivMod(rem10, den)
-       IN DivLoop(NAdd(NMulSmall(quot, 10), dm[1]), NMulSmall(dm[2], 10), den, scale + 1, prec + 1, P)
-RECURSIVE ShiftUp(_, _, _)
-ShiftUp(num, den, scale) == IF NCmp(num, den) < 0 THEN ShiftUp(NMulSmall(num, 10), den, scale + 1) ELSE <<num, scale>>
-DivMech(x, y, P) ==
-  IF x.d = <<>> THEN DZero
-  ELSE LET su == ShiftUp(x.d, y.d, x.sc - y.sc)
-           dm == NDivMod(su[1], y.d)
-       IN IF dm[2] = <<>> THEN Mk(x.s * y.s, dm[1], su[2])
-          ELSE LET st == DivLoop(dm[1], NMulSmall(dm[2], 10), y.d, su[2], Len(dm[1]), P)
-                   up == st[2] # <<>> /\ NCmp(NDiv(st[2], y.d), NatOf(5)) >= 0
-               IN Mk(x.s * y.s, IF up THEN NAdd(st[1], One) ELSE st[1], st[3])
 DivMechOK == ph = 2 /\ b.sc \in SmallSc =>
   \A P \in 1..3 : DivOK(a, b, P, [d |-> [s |-> DivMech(a, b, P).s, l |-> (IF DivMech(a, b, P).d = <<>> THEN <<>> ELSE <<ToInt(DivMech(a, b, P).d)>>), e |-> DivMech(a, b, P).sc]]) = OK
 \* every small pair is a behaviour for the harness: all spellings of / and % on it
